@@ -68,6 +68,22 @@ func runC16Main(c *fw.Case) (o fw.Outcome) {
 		msin = limit - int64(n)
 	}
 	cfg.IMSI = cfg.MCC + cfg.MNC + fmt.Sprintf("%0*d", msinLen, msin)
+	if k%3 == 1 && msinLen > len(cfg.MCC+cfg.MNC)+1 {
+		// the digits of the PLMN occur AGAIN inside the MSIN (of the first UE, or of one reached by counting up): an identity
+		// is split by position, never by searching for its parts
+		plmn := cfg.MCC + cfg.MNC
+		m := []byte(fmt.Sprintf("%0*d", msinLen, msin))
+		at := r.Intn(msinLen - len(plmn))
+		copy(m[at:], plmn)
+		if r.Intn(2) == 0 { // ... reached by the second UE
+			v, _ := strconv.ParseInt(string(m), 10, 64)
+			if v > 0 {
+				m = []byte(fmt.Sprintf("%0*d", msinLen, v-1))
+			}
+		}
+		cfg.IMSI = plmn + string(m)
+		o.Tag("plmn-digits-inside-msin")
+	}
 	cfg.Reg, cfg.Pdu, cfg.Svc, cfg.Rel, cfg.Dereg = n, 0, 0, 0, 0
 	cfg.UeNumber = n
 	ch := genChoices(r, n)
